@@ -205,7 +205,8 @@ def range_st(draw, n):
         return f'bytes=-{z}{draw(st.sampled_from([0, 1, 2, max(0, n - 1), n, n + 1, 10**12]) | st.integers(0, n + 2))}'
     if kind == 'multi':
         first = draw(st.sampled_from([f'{min(a, b)}-{max(a, b)}', f'{a}-', f'-{b}', f'{n}-{n + 5}', f'{n + 1}-', '-0']))
-        others = draw(st.lists(st.sampled_from(['0-0', '1-', '-1', f'{n}-', ' 2-3', '5-6 ', '9-8', 'x']), min_size=1, max_size=3))
+        others = draw(st.one_of(st.lists(st.sampled_from(['0-0', '1-', '-1', f'{n}-', ' 2-3', '5-6 ', '9-8', 'x']), min_size=1, max_size=3),
+                                st.sampled_from([9, 64, 199, 200, 201, 256, 1000]).map(lambda k: ['0-0'] * k)))          # (also hundreds of ranges: the first one still decides)
         return 'bytes=' + first + draw(st.sampled_from([',', ', ', ' ,'])) + ','.join(others)
     if kind == 'near':
         return draw(st.sampled_from([
@@ -308,6 +309,10 @@ def run(ctx):
                 for sp in specs:
                     for buf in (1, 4):
                         ctx.guarded(check_case, {'n': n, 'buf': buf, 'mtime': T0 + 5, 'range': 'bytes=' + sp})
+            for n in (0, 10, 50):
+                for k in (1, 10, 63, 64, 65, 127, 128, 199, 200, 201, 255, 256, 257, 1000, 5000):
+                    for first in ('2-5', '-3', f'{n}-', '0-'):
+                        ctx.guarded(check_case, {'n': n, 'buf': 8, 'mtime': T0 + 5, 'range': 'bytes=' + first + ',' + ','.join(['1-1'] * k)})
             for n in (0, 1, 10, 50):
                 for rng in ('bytes=5', 'bytes=0', 'bytes=42,50-60', 'bytes= 7 ', 'bytes=9', 'bytes=3,', 'bytes=1 2', 'bytes=07', 'bytes=5,0-1', 'bytes=0--0', 'bytes=4-', 'bytes=-4'):
                     ctx.guarded(check_case, {'n': n, 'buf': 8, 'mtime': T0 + 5, 'range': rng})
